@@ -67,13 +67,16 @@ impl<const N: usize, T: Send + Sync> ConIterOfArray<N, T> {
     unsafe fn split_off_right(&self, left_len: usize) -> Vec<T> {
         debug_assert!(left_len <= N);
 
-        let man_array = &mut *self.array.get();
-        let mut array = ManuallyDrop::take(man_array);
+        // moves the elements on the right out of the array into a new vector;
+        // elements on the left are already moved out and must not be touched
+        let array = &mut *self.array.get();
+        let right_len = N - left_len;
+        let mut right_vec = Vec::with_capacity(right_len);
+        std::ptr::copy_nonoverlapping(array.as_ptr().add(left_len), right_vec.as_mut_ptr(), right_len);
+        right_vec.set_len(right_len);
 
-        let mut vec = Vec::from_raw_parts(array.as_mut_ptr(), N, 0);
-        let right_vec = vec.split_off(left_len);
-
-        *man_array = ManuallyDrop::new(array);
+        // nothing remains in the array
+        self.counter().store(N);
         right_vec
     }
 }
